@@ -39,7 +39,7 @@ def main():
             if not m: continue
             jobs.append(("seed", d[len(sd) + 1:], pf, m.group(1)))
     if benign and benign != "none":
-        for pf in sorted(glob.glob(os.path.join(benign, "C*", "[RST]*", "patch.diff"))):
+        for pf in sorted(glob.glob(os.path.join(benign, "C*", "[R-Z]*", "patch.diff"))):
             d = os.path.dirname(pf)
             jobs.append(("benign", d[len(benign) + 1:], pf, d.split("/")[-2]))
     missed, alarms, nb, ns = [], [], 0, 0
